@@ -53,7 +53,7 @@ def plum_to_kiwi_future(plum_future: futures.Future) -> kiwipy.Future:
             else:
                 result = plum_future.result()
                 # Did we get another future?  In which case convert it too
-                if isinstance(result, futures.Future):
+                if asyncio.isfuture(result):
                     result = plum_to_kiwi_future(result)
                 kiwi_future.set_result(result)
 
